@@ -128,7 +128,8 @@ def kruger_oracle(xs, ys, decisions_zero):
     return out
 
 
-def shape_obligations(e, n, tier):
+def shape_obligations(e, n, tier, group=None):
+    """group=(k, K): only the branch patterns with index % K == k (parallel parts)"""
     xs, ys = sl.rvars(n)
     pre = pre_increasing(xs)
     wt = {("x%d" % i): xs[i] for i in range(n)}
@@ -141,7 +142,9 @@ def shape_obligations(e, n, tier):
         return
     t = z3.Real("t")
     nice = prefer_nice(xs, ys)
-    for (p, segs) in res:
+    for pidx, (p, segs) in enumerate(res):
+        if group is not None and pidx % group[1] != group[0]:
+            continue
         tag = "spline[n=%d,path=%s]" % (n, "".join("T" if d else "F" for d in p.decisions))
         if segs is None or len(segs) != n - 1 or len(p.decisions) != n - 2:
             e.not_encoded(tag, "shape obligations", "unexpected path shape (panic=%r, decisions=%r)" % (p.panic, p.decisions), FUNCS)
@@ -257,19 +260,30 @@ def fp_sign_branch(e):
             witness_terms={"s01": S1, "s12": S2}, role="spline-flat-fp")
 
 
+def run_part(rep, tier, part):
+    f = part.split(":")
+    e = E2(rep, tier)
+    shape_obligations(e, int(f[1]), tier, group=(int(f[2]), int(f[3])))
+    e.finish()
+
+
 def run(rep, tier):
     e = E2(rep, tier)
-    ns = [3, 4] if tier == "quick" else [3, 4, 5]
+    ns = [3, 4]
+    big = [] if tier == "quick" else [(5, 8)]  # n=5 needs more than the quick tier's 20 s per query for a few patterns
+    parts = ["shape:%d:%d:%d" % (n, k, K) for (n, K) in big for k in reversed(range(K))]
     rep.explanation = ("Whole-function symbolic execution of constrained_spline from MIR per knot count; for every branch pattern z3's "
                        "nlsat decides, over all real knots with strictly increasing x AND every real t of each interval, monotonicity "
                        "and the no-overshoot bounds; branch taken == sign-change predicate; zero slope at extrema; collinear data; "
                        "coefficient-wise equality with Kruger's formulas; bit-precise FP twin of the sign branch.")
-    rep.bounds = {"knots": ns, "outside": "more knots; shape claims under rounding (not linear in the data, no posing found that "
+    rep.bounds = {"knots": ns + [n for (n, _) in big], "outside": "more knots; shape claims under rounding (not linear in the data, no posing found that "
                   "nlsat finishes): the claim is about the exact-arithmetic meaning of the code plus the FP sign branch"}
     if validate_spline(e, rep.seed):
         for n in ns:
             shape_obligations(e, n, tier)
         fp_sign_branch(e)
+        import parallel
+        parallel.run_parts(rep, tier, parts, mir_text=e.mir_text, sources=e.sources)
     e.finish()
 
 
